@@ -848,6 +848,15 @@ Proof. destruct t; simpl; intros; try discriminate; auto. Qed.
 Lemma embed_no_generic s : has_generic (embed s) = false.
 Proof. induction s; simpl; auto. Qed.
 
+Lemma range_var_rigid t vt : range_var_type t = Some (Some vt) -> rigid vt = true /\ has_empty vt = false.
+Proof.
+  unfold range_var_type. destruct (name t) eqn:N; try discriminate;
+    try (intro H; inversion H; subst; auto; fail).
+  destruct (infer t) eqn:I; [|discriminate]. apply infer_no_empty in I as [I1 I2].
+  destruct t0; simpl; try discriminate; intro H; inversion H; subst; simpl in I1, I2;
+    apply rigid_fixed_type; assumption.
+Qed.
+
 Theorem tc_leaf_rigid e t err :
   annot_closed e = true -> tc e = ONode (NLeaf t) err -> rigid t = true /\ has_empty t = false.
 Proof.
@@ -884,7 +893,12 @@ Proof.
     apply infer_no_empty in I as [I1 I2]. apply rigid_fixed_type; assumption.
   - destruct (tc e); simpl in H; try discriminate. inversion H; subst.
     apply rigid_fixed_type; [apply closed_embed_iff; exact Hc | apply embed_no_generic].
+  - destruct (tc e); simpl in H; try discriminate.
+    destruct (range_var_type (node_type n)) as [[vt|]|] eqn:R; try discriminate; inversion H; subst; auto.
+    eapply range_var_rigid; eauto.
 Qed.
+
+
 
 (* ---------- assignment targets: parseAssignmentTarget against spec.md "Assignments" ---------- *)
 Definition erase_step (k : kstep) : sstep :=
@@ -964,4 +978,75 @@ Proof.
     destruct (target_step_s (erase t) (erase_step k)).
     + destruct St as (T1 & E1 & _ & S1 & N1). rewrite E1 in *. apply IH; assumption.
     + rewrite St in H. discriminate.
+Qed.
+
+(* ---------- loop variables (parseForStatement) ---------- *)
+(* for every range operand of a specification type: the loop variable exists
+   exactly for the iterable types, its type is the element type (keys and
+   characters: string; counting: num; untyped empties defaulted) … *)
+Theorem range_var_spec t :
+  spec_ty t = true ->
+  match range_elem_s (erase t) with
+  | Some s => exists vt, range_var_type t = Some (Some vt) /\ erase vt = s /\ spec_ty vt = true
+  | None => range_var_type t = None
+  end.
+Proof.
+  intro Hs. destruct t; simpl in Hs; try discriminate; simpl;
+    try (eexists; repeat split; reflexivity); try reflexivity.
+  - destruct (infer_spec t Hs) as (t' & E & D & S & Em & _).
+    unfold range_var_type; simpl. rewrite E. simpl.
+    eexists; split; [reflexivity|]. rewrite erase_fixed_type. split.
+    + symmetry. apply defaults_iff in D. exact D.
+    + destruct (fixed_type_keeps t') as [A _]; rewrite A; exact S.
+Qed.
+
+(* … and it is a VARIABLE of that type: when the operand is a variable, a
+   constant or an empty literal, the loop variable's type is a pure variable
+   type (Fixed at the top if composite, nothing convertible below), so by
+   accepts_iff_assignable it is assignable to the identical type or any only *)
+Theorem range_var_is_variable t vt :
+  pure_ty t = true -> range_var_type t = Some (Some vt) ->
+  (rigid vt = true /\ has_empty vt = false) /\
+  (forall T, spec_ty T = true -> is_array_name vt || is_map_name vt = true ->
+             (accepts T vt = true <-> Assignable KVar (erase T) (erase vt))).
+Proof.
+  intros Hp Hr. split; [eapply range_var_rigid; eauto|].
+  intros T HT Hcomp.
+  assert (Hv : var_ty vt = true).
+  { assert (Hs := pure_spec t Hp).
+    unfold range_var_type in Hr. destruct (name t) eqn:N; try discriminate;
+      try (inversion Hr; subst; discriminate).
+    destruct (infer_spec t Hs) as (t' & E & _ & S & Em & _ & HF). rewrite E in Hr.
+    assert (HFs : forall s, sub t' = Some s -> has_fixed s = false).
+    { unfold pure_ty in Hp. apply orb_true_iff in Hp as [Hc | Hv'].
+      - apply const_nofix in Hc. rewrite <- HF in Hc. intros s Hsub.
+        destruct t'; simpl in *; try discriminate; inversion Hsub; subst;
+          apply orb_false_iff in Hc as [_ Hc]; exact Hc.
+      - destruct (var_form t Hv') as (ts & [-> | ->] & Hts); simpl in E;
+          destruct (infer ts) eqn:I; try discriminate; inversion E; subst; simpl;
+          intros s Hsub; inversion Hsub; subst;
+          destruct (infer_spec ts) as (x & Ex & _ & _ & _ & _ & Hx);
+          try (apply var_ty_inv in Hv' as [Hv' _]; simpl in Hv'; exact Hv');
+          rewrite I in Ex; inversion Ex; subst; congruence. }
+    destruct t'; simpl in Hr; try discriminate; inversion Hr; subst; simpl in S, Em;
+      specialize (HFs _ eq_refl);
+      destruct t'; simpl in Hcomp; try discriminate; unfold var_ty; simpl in *;
+      rewrite S, Em; simpl; apply orb_false_iff in HFs as [_ HFs]; rewrite HFs; reflexivity. }
+  assert (K : kind_of vt = KVar).
+  { apply var_ty_inv in Hv as (_ & _ & _ & H). unfold kind_of. rewrite H. reflexivity. }
+  rewrite <- K. apply accepts_iff_assignable; [exact HT | unfold pure_ty; rewrite Hv; apply orb_true_r].
+Qed.
+
+(* a second, empty-free witness against wrap_total on the current tree:
+   parseBinaryExpr looks only at the TOP-LEVEL Fixed flag of the right operand,
+   so  [[1]] + [nums]  (nums a variable) keeps the unfixed type [][]num of its
+   left operand, accepts lets it through for [][]any, and wrapAny then tries
+   to convert the variable nums.   nums := [1] ; a:[][]any ; a = [[1]] + [nums] *)
+Lemma wrap_total_concat_inner_fixed_refuted :
+  exists e n target, tc e = ONode n false /\ accepts target (node_type n) = true /\ wrap_any n target = None /\
+    has_empty (node_type n) = false.
+Proof.
+  exists (EBin OpPlus (EArr [EArr [ELitNum]]) (EArr [EVar (SArr SNum)])). eexists.
+  exists (TArr true (TArr false TAny)).
+  split; [vm_compute; reflexivity|]. repeat split; vm_compute; reflexivity.
 Qed.
